@@ -1,7 +1,7 @@
 //! C35 / C34 — the node's SQL front door (HTTP `/sql`, `/fragment`, `/readyz` and Arrow Flight)
 //! exercised on REAL in-process nodes started with `query_engine::distributed::spawn`.
 //!
-//! `node-replay <in.ndjson> <out.ndjson> <workdir> [jobs] [corrupt]`
+//! `node-replay <in.ndjson> <out.ndjson> <workdir> [jobs] [corrupt] [npeers]`
 //!   in : one history per line {"id", "steps":[step..]}; steps are the actions of spec/FrontDoor.tla
 //!        (LoadDone, LoadFail, Resolve, ProbeUp, ProbeDown, Tick, PeerDies, Drain, Req).
 //!   out: the same history with an "obs" object per step: what the real node did, projected to the
@@ -542,6 +542,7 @@ struct Cluster {
     nut: Node,
     peers: HashMap<i64, Node>,
     draining: bool,
+    reserved: Vec<i32>,
 }
 
 fn load_of(s: &NodeState) -> &'static str {
@@ -677,6 +678,14 @@ async fn http_sql(env: &Env, addr: &str, req: &Value, fmt: &str) -> Result<HttpO
     }
     let mut rows_out = None;
     let mut sig_out = None;
+    let reference = env.reference.get(sql.trim()).await;
+    match &*reference {
+        RefRes::Err { kind, .. } => o["ref"] = json!(*kind),
+        RefRes::Rows { rows, .. } => {
+            o["ref"] = json!("ok");
+            o["ref_rows"] = json!(rows.len());
+        }
+    }
     if r.status != 200 {
         let t = err_text(&r.body);
         if r.status == 503 {
@@ -686,7 +695,6 @@ async fn http_sql(env: &Env, addr: &str, req: &Value, fmt: &str) -> Result<HttpO
         return Ok(HttpOut { obs: o, rows: None, sig: None });
     }
     // a 200: the body must decode to the engine's own rows
-    let reference = env.reference.get(sql.trim()).await;
     match &*reference {
         RefRes::Err { kind, msg } => {
             o["ref"] = json!(*kind);
@@ -987,6 +995,10 @@ async fn flight_pair(env: &Env, c: &mut Cluster, req: &Value) -> Result<FlightOu
     }
     let gfi_failed = tamper != "forged" && base.is_none();
     if gfi_failed && tamper == "none" {
+        if let RefRes::Rows { rows, .. } = &*env.reference.get(sql.trim()).await {
+            o["ref"] = json!("ok");
+            o["ref_rows"] = json!(rows.len());
+        }
         // the pair's outcome is the GetFlightInfo status; no ticket to redeem
         o["dg"] = json!({"code": "skipped"});
         return Ok(FlightOut { obs: o, rows: None, sig: None });
@@ -1024,6 +1036,16 @@ async fn flight_pair(env: &Env, c: &mut Cluster, req: &Value) -> Result<FlightOu
     }
     let mut rows_out = None;
     let mut sig_out = None;
+    {
+        let reference = env.reference.get(sql.trim()).await;
+        match &*reference {
+            RefRes::Err { kind, .. } => o["ref"] = json!(*kind),
+            RefRes::Rows { rows, .. } => {
+                o["ref"] = json!("ok");
+                o["ref_rows"] = json!(rows.len());
+            }
+        }
+    }
     if let Some(b) = &batches {
         let mut got = rows_of(b);
         if env.corrupt == "frow" && !got.is_empty() {
@@ -1078,10 +1100,39 @@ fn ints(v: &Value) -> Vec<i64> {
     v.as_array().map(|a| a.iter().filter_map(|x| x.as_i64()).collect()).unwrap_or_default()
 }
 
+/// Keep a dead peer's port out of circulation (bound, not listening: connects are refused) so that no node
+/// of a concurrently replayed history can be given the same ephemeral port while this history still runs.
+fn reserve_port(addr: &str) -> Option<i32> {
+    let sa: std::net::SocketAddr = addr.parse().ok()?;
+    let std::net::SocketAddr::V4(v4) = sa else { return None };
+    unsafe {
+        let fd = libc::socket(libc::AF_INET, libc::SOCK_STREAM, 0);
+        if fd < 0 {
+            return None;
+        }
+        let one: libc::c_int = 1;
+        libc::setsockopt(fd, libc::SOL_SOCKET, libc::SO_REUSEADDR, &one as *const _ as *const libc::c_void, 4);
+        let sin = libc::sockaddr_in {
+            sin_family: libc::AF_INET as u16,
+            sin_port: v4.port().to_be(),
+            sin_addr: libc::in_addr { s_addr: u32::from_ne_bytes(v4.ip().octets()) },
+            sin_zero: [0; 8],
+        };
+        if libc::bind(fd, &sin as *const _ as *const libc::sockaddr, std::mem::size_of::<libc::sockaddr_in>() as u32) != 0 {
+            libc::close(fd);
+            return None;
+        }
+        Some(fd)
+    }
+}
+
 async fn kill_peer(c: &mut Cluster, p: i64) -> Result<(), String> {
     if let Some(n) = c.peers.get_mut(&p) {
         if let Some(h) = n.handle.take() {
             h.shutdown().await;
+            if let Some(fd) = reserve_port(&n.addr) {
+                c.reserved.push(fd);
+            }
         }
         n.alive = false;
         // the listener is closed once shutdown() returns; make sure of it
@@ -1264,7 +1315,7 @@ async fn run_history(env: Arc<Env>, hist: Value) -> Value {
     let drain = steps.iter().any(|s| s["a"] == "Drain");
     let mut out = hist.clone();
     let mut c = match spawn_nut(&env.data, drain).await {
-        Ok(n) => Cluster { nut: n, peers: HashMap::new(), draining: false },
+        Ok(n) => Cluster { nut: n, peers: HashMap::new(), draining: false, reserved: Vec::new() },
         Err(e) => {
             out["err"] = json!(e);
             return out;
@@ -1297,6 +1348,11 @@ async fn run_history(env: Arc<Env>, hist: Value) -> Value {
             h.shutdown().await;
         }
     }
+    for fd in c.reserved.drain(..) {
+        unsafe {
+            libc::close(fd);
+        }
+    }
     out
 }
 
@@ -1306,7 +1362,7 @@ fn make_env(work: &Path, npeers: i64, corrupt: &str) -> Env {
     let ctx = load_ctx(&data).expect("reference context");
     // every participant of a 2- and 3-node fan-out must own a split, or a dead peer could go unnoticed
     for table in ["t", "big"] {
-        for n in 2..=3usize {
+        for n in 2..=4usize {
             let set = splits_of(&ctx, table, n).expect("splits_of");
             let asg = assign_lpt(&set, n);
             if asg.node_splits.iter().any(|&k| k == 0) {
@@ -1331,9 +1387,10 @@ pub fn replay(a: &[String]) -> i32 {
     let work = PathBuf::from(&a[2]);
     let jobs: usize = a.get(3).and_then(|s| s.parse().ok()).unwrap_or(4);
     let corrupt = a.get(4).cloned().unwrap_or_default();
+    let npeers: i64 = a.get(5).and_then(|s| s.parse().ok()).unwrap_or(2);
     std::fs::create_dir_all(&work).unwrap();
     let rt = tokio::runtime::Builder::new_multi_thread().worker_threads(4).max_blocking_threads(256).enable_all().build().unwrap();
-    let env = Arc::new(make_env(&work, 2, &corrupt));
+    let env = Arc::new(make_env(&work, npeers, &corrupt));
     let t0 = Instant::now();
     let results: Vec<Value> = rt.block_on(async {
         futures::stream::iter(hists.into_iter().map(|h| {
